@@ -2535,19 +2535,40 @@ private:
 
         constexpr bool make_nterm_empty(size16_t nt)
         {
-            if (nterm_empty_analyzed.test(nt))
-                return nterm_empty.test(nt);
-            nterm_empty_analyzed.set(nt);
+            if (!nterm_empty_analyzed)
+                analyze_nterm_empty();
+            return nterm_empty.test(nt);
+        }
 
-            const utils::slice& s = gi.nterm_rule_slices[nt];
-            for (size_t i = 0u; i < s.n; ++i)
+        constexpr void analyze_nterm_empty()
+        {
+            nterm_empty_analyzed = true;
+            bool changed = true;
+            while (changed)
             {
-                if (make_right_side_empty(gi.rule_infos[s.start + i]))
+                changed = false;
+                for (size_t r = 0u; r < rule_count; ++r)
                 {
-                    return (nterm_empty.set(nt), true);
+                    const rule_info& ri = gi.rule_infos[r];
+                    if (nterm_empty.test(ri.l_idx))
+                        continue;
+                    bool empty = true;
+                    for (size_t i = 0u; i < ri.r_elements; ++i)
+                    {
+                        const symbol& s = gi.right_sides[ri.r_idx][i];
+                        if (s.term || !nterm_empty.test(s.idx))
+                        {
+                            empty = false;
+                            break;
+                        }
+                    }
+                    if (empty)
+                    {
+                        nterm_empty.set(ri.l_idx);
+                        changed = true;
+                    }
                 }
             }
-            return (nterm_empty.reset(nt), false);
         }
 
         const grammar_info& gi;
@@ -2566,7 +2587,7 @@ private:
         right_side_slice_subset right_side_slice_first_analyzed = {};
         nterm_subset nterm_empty = { };
         term_subset nterm_first[nterm_count] = { };
-        nterm_subset nterm_empty_analyzed = { };
+        bool nterm_empty_analyzed = false;
         bool nterm_first_analyzed = false;
     };
 
